@@ -104,7 +104,31 @@ def judge(ctx, case):
     ctx.evaluation({"e": [(k, v) for k, v in ent.items()], "c": common}, nt)
     if ctx.evals % 301 == 1:
         ctx.sample({"entries": [(list(k), v) for k, v in list(ent.items())[:4]], "n_entries": n, "common": common})
-    data = indx.save_bytes(case)
+    container = None
+    if ctx.evals % 6 == 0 and not case.get("big_array"):
+        # the same entries handed over in another container: an index object that carries a common value of its OWN
+        # (what is saved is the entries together with the common value given to save - any entries with any common
+        # value), or an ordered / user-defined dict
+        import collections
+        from catii import iindex
+
+        raw = indx.entries_dict(case)
+        form = (ctx.evals // 6) % 4
+        if form in (0, 1):
+            own = (common + 1 + (ctx.evals // 24) % 3) if form == 0 or common == 0 else 0
+            top = max([int(v[-1]) for v in raw.values() if len(v)], default=0)
+            extent = tuple(max(k[i] for k in ent) + 1 for i in range(1, case["arity"])) if n else ()
+            container = iindex(raw, common=own, shape=(top + 1,) + extent)
+            ctx.count("class:entries_are_an_index_with_its_own_common_value")
+            if common == 0:
+                ctx.count("class:entries_are_an_index_with_its_own_common_value,saved_common=0")
+        elif form == 2:
+            container = collections.OrderedDict(raw)
+            ctx.count("class:entries_are_an_OrderedDict")
+        else:
+            container = type("Entries", (dict,), {"common": common + 5, "shape": (1,)})(raw)
+            ctx.count("class:entries_are_a_dict_subclass_with_attributes")
+    data = indx.save_bytes(case, entries=container)
     out, lcommon, dt, info = indx.load_bytes(data)
     ctx.count("earlier_load_rechecked")
     if indx.LATER_CHANGE[0]:
